@@ -369,6 +369,15 @@ def run_c08(tier, seed):
         exp = classify_impl(twin, 'string', 'ignore')
         got = {'string': classify_impl(big, 'string', 'ignore'), 'bytes': classify_impl(big.encode('utf-8'), 'string', 'error'),
                'file': classify_impl(big, 'file', 'ignore')}
+        from . import coll_family, impl as _impl2
+        from mosromgr.mostypes import MosFile as _MF
+        coll_family.install_fake_s3(coll_family.FakeS3({'k/big.mos.xml': big.encode('utf-8')}))
+        try:
+            with warnings.catch_warnings():
+                warnings.simplefilter('ignore')
+                got['s3'] = {'kind': type(_MF.from_s3(bucket_name='b', mos_file_key='k/big.mos.xml')).__name__}
+        except Exception as e:  # noqa: BLE001
+            got['s3'] = {'err': _impl2.err_name(e)}
         oc.evaluations += 1
         oc.in_domain += 1
         oc.count('big-documents')
